@@ -20,6 +20,7 @@ RULE += ' Half of the driver cases rebalance through a real QuantTradingSystem (
 RULE += " After every portfolio construction the broker's holdings report is read before anything is submitted; a construction that records no allocation row is a violation; in sessions every cell of get_target_allocations() must follow the recorded rows (NaN where the asset was not in that rebalance's asset set)."
 RULE += " 30% of the driver cases keep ONE real StaticUniverse object for all rebalances and are judged against the universe as configured. Sessions include a time-varying 'switch' alpha that weights an asset outside the static universe for a while and then drops it (the asset set shrinks)."
 RULE += ' The PCM driver overwrites the quantities in ITS copy of the holdings report right after reading it.'
+RULE += ' Round 11: whole-number alpha weights arrive as ints, every third rebalance as numpy integers.'
 ASSUMPTIONS = ['the target is the sizer\'s own output (its correctness is C10/C11)']
 
 
